@@ -19,6 +19,10 @@ class Unfoldable(Exception):
     pass
 
 
+_ISINSTANCE_TYPES = {"int": int, "float": float, "str": str, "bytes": bytes, "bool": bool, "bytearray": bytearray, "list": list, "tuple": tuple, "dict": dict,
+                  "memoryview": memoryview, "set": set, "frozenset": frozenset, "range": range, "complex": complex}
+
+
 class AbsentAttribute(Unfoldable):
     """Reading an attribute that the probe object (RecordVal) does not have: the program would raise AttributeError."""
 
@@ -410,11 +414,11 @@ class Folder:
                 return any(n.split(".")[-1] in v.isa for n in names)
             types = []
             for t in tt:
-                if isinstance(t, ast.Name) and t.id in ("int", "float", "str", "bytes", "bool", "bytearray", "list", "tuple", "dict") and not (scope.env is not None and t.id in scope.env) and t.id not in scope.mod.consts and t.id not in scope.mod.classes:
-                    types.append({"int": int, "float": float, "str": str, "bytes": bytes, "bool": bool, "bytearray": bytearray, "list": list, "tuple": tuple, "dict": dict}[t.id])
+                if isinstance(t, ast.Name) and t.id in _ISINSTANCE_TYPES and not (scope.env is not None and t.id in scope.env) and t.id not in scope.mod.consts and t.id not in scope.mod.classes:
+                    types.append(_ISINSTANCE_TYPES[t.id])
                 else:
                     raise Unfoldable("isinstance with a type that is not a built-in")
-            if isinstance(v, (int, float, str, bytes, bool, bytearray, list, tuple, dict, type(None))):
+            if isinstance(v, (int, float, str, bytes, bool, bytearray, list, tuple, dict, frozenset, range, type(None))):
                 return isinstance(v, tuple(types))
             raise Unfoldable("isinstance of a non-literal")
         if isinstance(fn, ast.Name) and fn.id in ("min", "max", "abs", "int", "bool", "all", "any", "sum", "sorted", "hex") and expr.args and not expr.keywords:
